@@ -16,6 +16,8 @@ pub struct Case {
     pub churn: Vec<Vec<u32>>,
     pub start: u32,
     pub switches: Vec<Sw>,
+    /// per thread: (call_no, monotonic jump ns, wall-clock jump ns) applied before that call
+    pub jumps: Vec<Vec<(u32, i64, i64)>>,
 }
 
 impl Case {
@@ -24,7 +26,7 @@ impl Case {
     }
     pub fn size(&self) -> (usize, usize, usize, usize, usize) {
         let intra = self.switches.iter().filter(|s| s.tick != 0).count();
-        let churn: usize = self.churn.iter().map(|c| c.len()).sum();
+        let churn: usize = self.churn.iter().map(|c| c.len()).sum::<usize>() + self.jumps.iter().map(|c| c.len()).sum::<usize>();
         let text: usize = self.threads.iter().flat_map(|t| t.iter()).map(|c| c.expr.len()).sum();
         (self.total_calls(), self.threads.len(), intra + churn, self.switches.len(), text)
     }
@@ -34,6 +36,7 @@ impl Case {
             "churn": self.churn,
             "start": self.start,
             "switches": sim::switches_to_json(&self.switches),
+            "clock_jumps": self.jumps.iter().map(|t| t.iter().map(|(k, a, b)| json!([k, a, b])).collect::<Vec<_>>()).collect::<Vec<_>>(),
         })
     }
     pub fn from_json(v: &Value) -> Option<Case> {
@@ -54,7 +57,22 @@ impl Case {
         churn.resize(threads.len(), Vec::new());
         let start = v.get("start").and_then(|s| s.as_u64()).unwrap_or(0) as u32;
         let switches = sim::switches_from_json(v.get("switches")?)?;
-        Some(Case { threads, churn, start, switches })
+        let mut jumps: Vec<Vec<(u32, i64, i64)>> = Vec::new();
+        if let Some(js) = v.get("clock_jumps").and_then(|c| c.as_array()) {
+            for t in js {
+                let mut tj = Vec::new();
+                for j in t.as_array().cloned().unwrap_or_default() {
+                    if let Some(a) = j.as_array() {
+                        if a.len() == 3 {
+                            tj.push((a[0].as_u64().unwrap_or(0) as u32, a[1].as_i64().unwrap_or(0), a[2].as_i64().unwrap_or(0)));
+                        }
+                    }
+                }
+                jumps.push(tj);
+            }
+        }
+        jumps.resize(threads.len(), Vec::new());
+        Some(Case { threads, churn, start, switches, jumps })
     }
     pub fn from_spec(pool: &Pool, spec: &RunSpec, start: u32, switches: Vec<Sw>) -> Case {
         Case {
@@ -66,6 +84,7 @@ impl Case {
             churn: spec.churn.clone(),
             start,
             switches,
+            jumps: spec.clock_jumps.clone(),
         }
     }
 }
@@ -161,6 +180,11 @@ pub fn materialise(case: &Case, oc: &mut OracleCache) -> Option<(Pool, RunSpec)>
         est_steps: 0,
         want_trace: true,
         faults_enabled: Vec::new(),
+        clock_jumps: {
+            let mut j = case.jumps.clone();
+            j.resize(case.threads.len(), Vec::new());
+            j
+        },
     };
     Some((pool, spec))
 }
